@@ -27,9 +27,24 @@ type vClient struct {
 
 func (c *vClient) fail(tag string) bool { return c.fails && ndBool(tag) }
 
+// what a failing call returns: a transport error, or the context's own error (the caller went
+// away mid-call) -- either way the operation did not happen
+func (c *vClient) err() error {
+	if c.srv.down {
+		return vErrRedis
+	}
+	switch ndChoice("failure-kind", 3) {
+	case 1:
+		return context.Canceled
+	case 2:
+		return context.DeadlineExceeded
+	}
+	return vErrRedis
+}
+
 func (c *vClient) Get(_ context.Context, key string) ([]byte, error) {
 	if c.srv.down || c.fail("get-fails") {
-		return nil, vErrRedis
+		return nil, c.err()
 	}
 	v, ok := c.srv.m[key]
 	if !ok {
@@ -39,7 +54,7 @@ func (c *vClient) Get(_ context.Context, key string) ([]byte, error) {
 }
 func (c *vClient) Set(_ context.Context, key string, value []byte, exp time.Duration) error {
 	if c.srv.down || c.fail("set-fails") {
-		return vErrRedis
+		return c.err()
 	}
 	c.srv.m[key] = value
 	c.srv.ttl[key] = exp
@@ -47,7 +62,7 @@ func (c *vClient) Set(_ context.Context, key string, value []byte, exp time.Dura
 }
 func (c *vClient) Del(_ context.Context, key string) error {
 	if c.srv.down || c.fail("del-fails") {
-		return vErrRedis
+		return c.err()
 	}
 	delete(c.srv.m, key)
 	return nil
@@ -57,7 +72,7 @@ func (c *vClient) Ping(ctx context.Context) error {
 		return verifHang(ctx)
 	}
 	if c.srv.down || c.fail("ping-fails") {
-		return vErrRedis
+		return c.err()
 	}
 	return nil
 }
@@ -103,6 +118,13 @@ func vh_C11_redis_store() {
 	serr := f.Save(ctx, key, val, exp)
 	_, stored := srv.m[key]
 	verifAssert("C13.redis.save-error-iff-not-stored", (serr != nil) == !stored)
+	// a removal that did not happen is an error, whatever the client's error looks like
+	cerr := f.Clear(ctx, key)
+	_, still := srv.m[key]
+	verifAssert("C11.redis.clear-error-iff-entry-still-there", vImp(stored && still, cerr != nil))
+	if cerr == nil && stored {
+		stored = false
+	}
 	_, lerr := f.Load(ctx, key)
 	if !stored {
 		verifAssert("C13.redis.load-of-missing-entry-is-an-error", lerr != nil)
